@@ -476,15 +476,12 @@ theorem kinetics_marshal_euler_agree_graph (sys : PySys) (U : Sys) (hU : ∀ d, 
 
 /-! ## any engine units system: what is left -/
 
-/-- PARTIAL (general `U`, SI reading).  `marshal_euler_eq_rate_graph/_grid` above are unconditional in `U`: the decoded engine
-computes the rate law of `physInU sys U` — the system's numbers in `U`.  To read that as the SI rate one needs
-`hP : physInU sys U … = scalePhys a b c (physOfPy sys …)` with `(a, b, c)` the SI sizes of the three base units of `U`; then
-`C04.rate_homogeneous` gives the statement below.  MISSING STEP: `hP` itself.  It is a per-table identity
-`q.inU U = q.si / siFactor U d` with `d` the dimension `scalePhys` divides by (`kfDim (Σ_{s<ns} sub s)`, diffusion, volume,
-surface, length); it needs (1) every stored `Q` to carry exactly that dimension and (2) `natSum r.sub = Σ_{s<nSpecies} r.sub[s]`
-(coefficient lists no longer than `nSpecies`).  Both are established by `buildSystem` (Model/Build.lean) but are not part of
-`PySys`, so the assembly `buildSystem … = .ok b → hP for b.sys` is what remains (the op `marshal` + `euler_step` correspondence
-exercises it in non-SI units on every run). -/
+/-- LEMMA for the any-units theorems (general `U`, SI reading).  `marshal_euler_eq_rate_graph/_grid` above are unconditional
+in `U`: the decoded engine computes the rate law of `physInU sys U` — the system's numbers in `U`.  To read that as the SI rate one
+needs `hP : physInU sys U … = scalePhys a b c (physOfPy sys …)` with `(a, b, c)` the SI sizes of the three base units of `U`; then
+`C04.rate_homogeneous` gives the statement below.  `hP` is DISCHARGED in `Props/C01Units.lean` (`physInU_eq_scalePhys`, from the
+explicit dimension invariants `DimWF`), which states the full theorems `marshal_euler_general_units_graph/_grid` and
+`kinetics_marshal_euler_agree_*_units`; the name `_partial` is kept because this statement still carries `hP` as a hypothesis. -/
 theorem marshal_euler_general_units_partial (e : EngIn) (PU : Phys) (P : Phys) (a b c : Rat) (ha : a ≠ 0) (hb : b ≠ 0) (hc : c ≠ 0)
     (x : State) (xSI : St) (i s : Nat)
     (hdecoded : eulerDxdt e x i s = rate PU x.get s i)
